@@ -28,7 +28,12 @@ def seqs(maxlen, dup):
     return out
 
 
+def entries(series):
+    return tuple(x for x in series if x and not x.startswith('#'))
+
+
 def is_prefix(applied, series):
+    series = entries(series)
     return len(applied) <= len(series) and tuple(series[:len(applied)]) == tuple(applied)
 
 
@@ -63,10 +68,10 @@ def case_state(task):
             os.makedirs(os.path.join(root, '.pc'), exist_ok=True)
             open(os.path.join(root, '.pc', 'applied-patches'), 'w').write(''.join(a + '\n' for a in applied))
         if not consistent:
-            reason = 'applied-patches-longer-than-series' if (len(applied) > len(series) and tuple(applied[:len(series)]) == tuple(series)) else 'applied-patches-differs-from-series'
+            reason = 'applied-patches-longer-than-series' if (len(applied) > len(entries(series)) and tuple(applied[:len(entries(series))]) == entries(series)) else 'applied-patches-differs-from-series'
         elif goal is not None and goal.split()[-1] in NAMES and goal.split()[-1] in applied:
             reason = 'goal-already-applied' + ('-with-a' if goal.startswith('-a ') else '')   # a goal argument beats -a
-        elif goal is not None and (goal.split()[-1] == 'bogus' or (goal.split()[-1] in NAMES and goal.split()[-1] not in series)):
+        elif goal is not None and (goal.split()[-1] == 'bogus' or (goal.split()[-1] in NAMES and goal.split()[-1] not in entries(series))):
             reason = 'goal-not-in-series' + ('-with-a' if goal.startswith('-a ') else '')
         else:
             reason = None
@@ -142,7 +147,7 @@ def run(tier, seed):
     res = common.Result('model_checking')
     m0 = tq.initial()
     texts = patch_texts(m0)
-    series_set = [s for s in seqs(3, False) if s] + [('p1', 'p1')]
+    series_set = [s for s in seqs(3, False) if s] + [('p1', 'p1'), (), ('# only a comment', '')]
     applied_set = seqs(3, True)
     goals_all = [None, '0', '1', '2', '4', '-a', 'p1', 'p2', 'p3', 'bogus', '-a bogus', '-a p1', '-a p2', '-a 1']
     tasks = []
@@ -170,7 +175,7 @@ def run(tier, seed):
         acc2.add(r)
     acc2.finish('bad_patch_file_sweep')
     cov = res.coverage
-    cov['rule'] = ('(1) all pairs (series, applied-patches): series = every duplicate-free sequence of 1..3 of the names p1,p2,p3 (+ one with a duplicate), applied-patches = every sequence of '
+    cov['rule'] = ('(1) all pairs (series, applied-patches): series = every duplicate-free sequence of 0..3 of the names p1,p2,p3 (+ one with a duplicate, + one with only a comment and a blank line), applied-patches = every sequence of '
                    '0..3 names incl. duplicates (prefix, longer, reordered, edited, duplicated) x goals {none,0,1,2,4,-a,p1,p2,p3,unknown name, and -a combined with an unknown / a known name / a number} (4 goals when the state is inconsistent) x threads {1,2} x '
                    '{-q, default}; consistent prefixes are produced by a real earlier push. (2) a missing / truncated / malformed-header / binary / malformed-body / directory-instead-of-file patch at every position j '
                    'of the range with 0..2 patches applied before, threads {1,2}, both verbosities, --backup always. Oracle whenever the statement\'s precondition holds: exit class 1 (never a crash), '
